@@ -14,17 +14,25 @@ type c05Struct struct {
 }
 
 type c05Typed struct {
-	A int64   `config:"a"`
-	B *int64  `config:"b"`
+	A int64  `config:"a"`
+	B *int64 `config:"b"`
 }
 
-const nReprs = 7
+const nReprs = 8
 
-var reprName = [...]string{"map[string]interface{}", "map[interface{}]interface{}", "typed map/slice", "struct", "pointers", "*Config", "array"}
+var reprName = [...]string{"map[string]interface{}", "map[interface{}]interface{}", "typed map/slice", "struct", "pointers", "*Config", "array", "*interface{}"}
 
 // repr materialises the node in one of the Go representations. ok is false if
 // the representation cannot express this shape (the path is then skipped).
 func repr(n *Node, r int) (v interface{}, ok bool) {
+	if r == 7 && n.Kind != kAbsent && n.Kind != kNil {
+		// every value is reached through a pointer to an interface value
+		inner, ok := repr7(n)
+		if !ok {
+			return nil, false
+		}
+		return &inner, true
+	}
 	switch n.Kind {
 	case kAbsent, kNil:
 		return nil, true
@@ -309,4 +317,47 @@ func H_C05_dup() {
 	verif.PermuteMaps(false)
 	verif.Reach("duplicate input")
 	verif.Assert(err != nil, "C05/duplicate setting rejected")
+}
+
+// repr7: the generic map / slice spelling with every child wrapped in *interface{}.
+func repr7(n *Node) (interface{}, bool) {
+	switch n.Kind {
+	case kInt:
+		return n.I, true
+	case kUint:
+		return n.U, true
+	case kBool:
+		return n.B, true
+	case kStr:
+		return n.S, true
+	}
+	if n.dictLen() > 0 || len(n.List) == 0 {
+		m := map[string]interface{}{}
+		for _, k := range n.Keys {
+			if c := n.Dict[k]; c.Kind != kAbsent {
+				cv, ok := repr(c, 7)
+				if !ok {
+					return nil, false
+				}
+				m[k] = cv
+			}
+		}
+		for i, e := range n.List {
+			ev, ok := repr(e, 7)
+			if !ok {
+				return nil, false
+			}
+			m[itoa(i)] = ev
+		}
+		return m, true
+	}
+	l := []interface{}{}
+	for _, e := range n.List {
+		ev, ok := repr(e, 7)
+		if !ok {
+			return nil, false
+		}
+		l = append(l, ev)
+	}
+	return l, true
 }
